@@ -784,7 +784,18 @@ def rule_header_values_are_text(repo: Repo, rep, rule: str = "R4.19") -> None:
     if wh is None:
         raise AnalysisError(f"{rule}: anchor vanished: EndpointUrlArgsGenerator._write_header_params")
     entries = [t for t, _ in _emitted_lines(wh) if "DataclassSerializer.serialize(" in t or "serialize(" in t]
+    if not entries:
+        from sa.flatten import flatten as _fl419
+
+        wh = _fl419(wh)  # the entries may be written by a helper shared with the query parameters
+        entries = [t for t, _ in _emitted_lines(wh) if "DataclassSerializer.serialize(" in t or "serialize(" in t]
+    if not entries:
+        # ... or assembled by concatenation in that helper: any string constant of the (written-out) function that carries the serialiser call
+        entries = [x.value for x in ast.walk(wh.node) if isinstance(x, ast.Constant) and isinstance(x.value, str) and "serialize(" in x.value]
     rep.require(bool(entries), f"{rule}: the header entry templates of _write_header_params were not found (anchor)")
+    from rules.c17 import _desugar_header_writes
+
+    _desugar_header_writes(repo)  # the transport's case-insensitive header writes are read as the `update(...)` they stand for
     converts_in_template = bool(entries) and all(("str(" in t.split(":", 1)[-1]) for t in entries)
     ht = repo.module("core.http_transport")
     ph = ht.classes["HttpxTransport"].methods.get("_prepare_headers") if "HttpxTransport" in ht.classes else None
